@@ -315,6 +315,10 @@ CLAUSES.append(Clause(
     rule="every listed case is non-trivial", shards={"quick": 8, "thorough": 8},
 ))
 
+from ..envcheck import env_clauses  # noqa: E402
+
+CLAUSES.extend(env_clauses("C10", D.FAMILIES))
+
 PROPERTY = Property(
     id="C10",
     level="exploration",
